@@ -56,6 +56,11 @@ type smsg struct {
 	Label                     string
 	Req                       reqv
 	Cand                      bool
+	// Extra: further top-level JSON fields the client puts into the message
+	// (privileged, time, permissions, status, error, ...).  They are NOT
+	// written to the trace: the model is "the server does not let them
+	// through", so any influence on what anybody is sent is a divergence.
+	Extra map[string]interface{}
 }
 
 func sp(s string) *string { return &s }
@@ -371,6 +376,11 @@ func (h *hist) json(m *smsg) sigdrv.M {
 	if m.Cand {
 		j["candidate"] = map[string]interface{}{"candidate": ""}
 	}
+	for k, v := range m.Extra {
+		if _, ok := j[k]; !ok {
+			j[k] = v
+		}
+	}
 	return j
 }
 
@@ -463,6 +473,10 @@ func (h *hist) project(m sigdrv.Msg) string {
 		default:
 			if (m.Type == "chat" || m.Type == "chathistory") && id != "" && !h.knownIDs[id] {
 				id = "?"
+			}
+			// a value that is not a string is opaque in the model
+			if _, isStr := m.Value.(string); m.Value != nil && !isStr {
+				value = "?"
 			}
 		}
 	case "__close__":
